@@ -45,9 +45,9 @@ def _generate(program, cache, feats, d, out):
         lines = [l for l in text.splitlines() if l.startswith('print-type-size type:')]
         if r.returncode != 0 or len(lines) < 50:
             raise RuntimeError('print-type-sizes failed:\n' + r.stderr.decode()[-2000:])
-        with open(out + '.tmp', 'w') as fh:
+        with open(out + f'.tmp{os.getpid()}', 'w') as fh:
             fh.write('\n'.join(lines) + '\n')
-        os.replace(out + '.tmp', out)
+        os.replace(out + f'.tmp{os.getpid()}', out)
         for n in os.listdir(d):
             if n.startswith('sizes-') and os.path.join(d, n) != out and n.split('-')[1:-1] == os.path.basename(out).split('-')[1:-1]:
                 pass    # older hashes are small; keep
